@@ -268,6 +268,14 @@ def one(res, case, start, end, overlap):
         res.count('bound-unknown')
         return L == INF
     s, e, sz, orph = map(int, m.groups())
+    if (size >= 1 and sz != size) or orph != orphan or (
+            size < 1 and 0 < start <= end and sz != end + 1 - start):
+        # the look-ahead the tag reports is not the one it was asked for
+        # (e.g. a value remembered from an earlier rendering)
+        res.violate('bounded-pulls', 'step-differs:%s' % tag,
+                    {'asked': {'size': size, 'orphan': orphan},
+                     'reported': {'size': sz, 'orphan': orph}}, sub)
+        return True
     bound = e + sz + orph
     if body == 'nested':
         bound = max(bound, 2)   # the inner loop: element 1 + one look-ahead
